@@ -182,6 +182,7 @@ def main():
     ap.add_argument('--repo', default='/repo')
     ap.add_argument('--replay')
     ap.add_argument('--no-kani', action='store_true')
+    ap.add_argument('--no-selftest', action='store_true')
     ap.add_argument('--evidence-dir', default=os.path.join(VERIF, 'evidence'))
     a = ap.parse_args()
     pid = a.pid
@@ -210,6 +211,8 @@ def main():
     if a.no_kani:
         harnesses = []
 
+    if tier == 'thorough':
+        os.environ.setdefault('VERIF_KANI_AS', '50000000000')
     kani_res = {}
     with ThreadPoolExecutor(max_workers=8) as ex:
         futs = []
@@ -218,8 +221,9 @@ def main():
             futs.append(('twin', u, ex.submit(safe, run_verus, u, a.repo, outdir, True, 2)))
         kfut = None
         if harnesses:
-            kfut = ex.submit(safe, kanirun.run_cached, a.repo, harnesses, pid, cfg.get('kani_timeout', 1500),
-                             cfg.get('kani_jobs', 6))
+            kfut = ex.submit(safe, kanirun.run_cached, a.repo, harnesses, pid,
+                             cfg.get('kani_timeout', 1500) * (3 if tier == 'thorough' else 1),
+                             2 if tier == 'thorough' else cfg.get('kani_jobs', 6))
         for kind, u, f in futs:
             r = f.result()
             if isinstance(r, Exception):
@@ -391,8 +395,8 @@ def main():
         'wall_s': round(wall, 1),
         'violations': len(reported),
     }
-    if tier == 'thorough':
-        ev['coverage']['thorough_extras'] = cfg.get('thorough_note', '')
+    if tier == 'thorough' and not a.no_selftest:
+        ev['coverage']['thorough_extras'] = thorough_extras(pid, a.repo, units, outdir)
     os.makedirs(a.evidence_dir, exist_ok=True)
     # keep a copy of the generated units next to the evidence (ignored by git)
     udir = os.path.join(a.evidence_dir, 'units')
@@ -420,6 +424,41 @@ def main():
     print('OK property=%s tier=%s obligations=%d discharged=%d (verus functions %d, kani checks %d) wall=%.1fs'
           % (pid, tier, obligations, discharged, fn_total, kani_checks, wall))
     return 0
+
+
+def thorough_extras(pid, repo, units, outdir):
+    """thorough tier only: (a) brittleness probe: every unit again with half the solver budget; (b) mutation self-test:
+    every confirmed seeded change of this property (seeded/<ID>-*/patch.diff) applied to a scratch copy of the current
+    tree must make the Verus part of this check report a violation."""
+    import glob
+    import tempfile
+    out = {'brittle_functions': [], 'selftest': {}}
+    for u in units:
+        r = safe(run_verus, u, repo, os.path.join(outdir, 'half'), False, 15)
+        if isinstance(r, Exception) or r['compile_error']:
+            continue
+        out['brittle_functions'] += ['%s::%s' % (u, n) for n, f in r['functions'].items() if not f['success']]
+    for pd in sorted(glob.glob(os.path.join(VERIF, 'seeded', pid + '-*', 'patch.diff'))):
+        sid = os.path.basename(os.path.dirname(pd))
+        tmp = tempfile.mkdtemp(prefix='verif-selftest-', dir=SCRATCH_ROOT)
+        try:
+            shutil.copytree(os.path.join(repo, 'src'), os.path.join(tmp, 'src'))
+            for f in ('Cargo.toml', 'Cargo.lock'):
+                if os.path.exists(os.path.join(repo, f)):
+                    shutil.copy(os.path.join(repo, f), tmp)
+            ap = subprocess.run(['git', 'apply', '--unsafe-paths', '--directory=' + tmp, pd], capture_output=True, text=True, cwd='/')
+            if ap.returncode != 0:
+                ap = subprocess.run(['patch', '-p1', '-s', '-d', tmp, '-i', pd], capture_output=True, text=True)
+            if ap.returncode != 0:
+                out['selftest'][sid] = 'patch does not apply to the current tree (skipped)'
+                continue
+            p = subprocess.run([sys.executable, os.path.abspath(__file__), pid, '--no-kani', '--repo', tmp,
+                                '--evidence-dir', os.path.join(tmp, 'ev')], capture_output=True, text=True,
+                               env=dict(os.environ, VERIF_SCRATCH=os.path.join(tmp, 'scratch'), VERIF_TIER='quick'))
+            out['selftest'][sid] = {0: 'NOT detected by the Verus part', 1: 'detected', 2: 'no verdict'}.get(p.returncode, str(p.returncode))
+        finally:
+            shutil.rmtree(tmp, ignore_errors=True)
+    return out
 
 
 def safe(f, *args):
